@@ -666,12 +666,35 @@ func (p *prover) toLin(v ssa.Value, facts *[]cons) lin {
 				return p.capLin(x.Call.Args[0], facts)
 			case "min", "max":
 				at := atomLin(atom{v: v})
+				var als []lin
 				for _, a := range x.Call.Args {
 					al := p.toLin(a, facts)
+					als = append(als, al)
 					if b.Name() == "min" {
 						*facts = append(*facts, ge(al, at))
 					} else {
 						*facts = append(*facts, ge(at, al))
+					}
+				}
+				// the result is one of the operands: a constant bound that holds for every operand holds for it
+				for _, k := range []int64{0, 1, 4, 8, 10, 12, 16, 20, 30} {
+					all := true
+					for _, al := range als {
+						g := ge(al, konst(k)).e
+						if b.Name() == "max" {
+							g = ge(konst(k), al).e
+						}
+						if !entails(*facts, g) {
+							all = false
+							break
+						}
+					}
+					if all {
+						if b.Name() == "min" {
+							*facts = append(*facts, ge(at, konst(k)))
+						} else {
+							*facts = append(*facts, ge(konst(k), at))
+						}
 					}
 				}
 				return at
